@@ -6,8 +6,8 @@ from cachekey_lib import *
 META = {
     "technique": "Lean 4 theorems over a model of device::applyDependencyHash, dependency recording and cache lookup (parameters: hash, JSON encoder, hash rendering, directory naming, include scanner, compiler); histories of header edits interleaved with real builds, every build in a fresh process sharing one cache directory, compared with the model instantiated with the exact hash_t / json-dump models and judged by an independent include expander",
     "category": "proof",
-    "level_text": "Proof over all finite histories of file writes/removals and builds from an empty cache: the key resolution terminates within (number of cache entries + 1) steps for EVERY hash function (C07_resolve_terminates); with injective hash/encoder/rendering/directory naming it never reports a chain error (C07_no_chain_error), a cache hit runs exactly the binary the compiler would produce now from the configuration and the current contents of all transitively included files (C07_hit_is_fresh), and every completed build — hit or miss — is current (C07_every_build_current). Tied to the code by the regenerated chain shape (combinator, rendering, loop, visited guard) and by real multi-process build histories (content change, include added/removed, revert, two headers made equal, two headers swapped, file removed/restored) whose kernel outputs must encode the current #defines of all headers; a hang or crash of a build is a violation.",
-    "level_note": "Trusted: Lean kernel; translate/gen_cachekey.py; the hand-written model of the loop, of dependency recording and of the build pipeline (validated per build: hit/miss, exact 256-bit key, and the predicted closure mapped to kernel outputs); the compiler as a deterministic function of (key-relevant configuration, expansion); hash / directory-name injectivity are idealisations (64-bit directory names); scope: OKL builds (okl/enabled) with strict headers, files edited between — not during — builds, builds that run to completion (crashes: C08), headers resolved by the OKL preprocessor (a header only the C++ compiler finds is not tracked by occa).",
+    "level_text": "Proof over all finite histories of file writes/removals and builds from an empty cache: the key resolution terminates within (number of cache entries + 1) steps for EVERY hash function (C07_resolve_terminates); with injective hash/encoder/rendering/directory naming it never reports a chain error (C07_no_chain_error), a cache hit means every recorded dependency still has its recorded hash and runs exactly the binary the compiler would produce now from the configuration and the current contents of all transitively included files (C07_hit_is_fresh), and every completed build, hit or miss, is current (C07_every_build_current); the same with the encoder instantiated by the model of json::dumpToString, whose injectivity is proved on well-formed values (C07_every_build_current_dump); the historical xor chaining diverges for every hash function (C07_fold_chaining_diverges). Tied to the code by the regenerated chain shape (combinator, rendering, loop, visited guard: C07_table_shape) and by real multi-process build histories (content change, include added/removed, revert, two headers made equal, two headers swapped, file removed/restored) whose kernel outputs must encode the current #defines of all headers and whose hit/miss and exact 256-bit key must agree with the model; a hang or crash of a build is a violation.",
+    "level_note": "Trusted: Lean kernel; translate/gen_cachekey.py; the hand-written model of the loop, of dependency recording and of the build pipeline (validated per build: hit/miss, exact 256-bit key, and the predicted closure mapped to kernel outputs); the compiler as a deterministic function of (key-relevant configuration, expansion); hash / directory-name injectivity are idealisations (64-bit directory names); scope: OKL builds (okl/enabled) with strict headers, files edited between — not during — builds, builds that run to completion (crashes: C08), headers resolved by the OKL preprocessor (kernels built with okl/enabled false, and headers only the C++ compiler finds, are not tracked by occa: known finding C07-K1, replayed on every run).",
     "design_ref": "DESIGN.md section 4, C07",
 }
 
